@@ -421,6 +421,13 @@ func main() {
 			}
 		}
 	}
+	// shapes in their own (tight) bounding boxes at power-of-two and neighbouring cell counts: the renderers'
+	// own padding is all that keeps the surface inside the sampled volume (added after seed C05-7)
+	for _, si := range []int{0, 2, 3, 4, 7, 9, 13} {
+		for _, n := range []int{8, 15, 16, 17, 32, 64} {
+			jobs = append(jobs, job{scenes[si], n, scenes[si].s.BoundingBox(), false}, job{scenes[si], n, scenes[si].s.BoundingBox(), true})
+		}
+	}
 	done := c.ParFor(len(jobs), func(i int) {
 		j := jobs[i]
 		var r render.Render3 = render.NewMarchingCubesUniform(j.n)
